@@ -11,6 +11,7 @@ import (
 	"strconv"
 	"strings"
 	"sync"
+	"sync/atomic"
 	"time"
 
 	"golang.org/x/net/http2"
@@ -476,13 +477,18 @@ func C03(r *core.Run) {
 	results := make(chan res, len(list))
 	ch := make(chan *respScript)
 	var wg sync.WaitGroup
+	var failures int64
 	for wkr := 0; wkr < 12; wkr++ {
 		wg.Add(1)
 		go func() {
 			defer wg.Done()
-			cl := rawhttp.NewClient(addr, 60*time.Second)
+			cl := rawhttp.NewClient(addr, 30*time.Second)
 			defer cl.Close()
 			for s := range ch {
+				if atomic.LoadInt64(&failures) >= 24 {
+					results <- res{s, nil, errSkipped}
+					continue
+				}
 				var w rawhttp.Builder
 				w.Line(s.Method + " /c03/" + s.Tok + " HTTP/1.1").Field("Host", "c03.example").Field("X-Tok", s.Tok).Field("Accept-Encoding", "identity")
 				if s.Method == "POST" {
@@ -492,6 +498,9 @@ func C03(r *core.Run) {
 					w.End()
 				}
 				m, err := cl.Do(w.Bytes(), s.Method)
+				if m == nil {
+					atomic.AddInt64(&failures, 1)
+				}
 				results <- res{s, m, err}
 			}
 		}()
@@ -506,6 +515,9 @@ func C03(r *core.Run) {
 	added := map[string]int{}
 	for rs := range results {
 		s := rs.s
+		if rs.err == errSkipped {
+			continue
+		}
 		r.Case(s.Class)
 		statuses[s.Status] = true
 		if rs.m == nil {
@@ -653,7 +665,7 @@ func c03H2(r *core.Run, md *fakes.Metadata, serverBin, agentBin string) {
 		wg.Add(1)
 		go func() {
 			defer wg.Done()
-			cl := rawhttp.NewClient(addr, 60*time.Second)
+			cl := rawhttp.NewClient(addr, 30*time.Second)
 			defer cl.Close()
 			for s := range ch {
 				var w rawhttp.Builder
